@@ -40,7 +40,7 @@ func C16(c *core.Ctx) {
 		maxFiles = 3
 	}
 	dump := filepath.Join(c.Work, "layers")
-	r, err := c.RunTLC(core.TLCOpts{Module: "MC_EnvLayers", CfgText: fmt.Sprintf("SPECIFICATION Spec\nCONSTANTS MaxFiles = %d\nINVARIANTS LawsHold\nCHECK_DEADLOCK FALSE\n", maxFiles), Dump: dump, Timeout: 30 * time.Minute, Name: "layers"})
+	r, err := c.RunTLC(core.TLCOpts{Module: "MC_EnvLayers", CfgText: fmt.Sprintf("SPECIFICATION Spec\nCONSTANTS MaxFiles = %d\n Product = %s\nINVARIANTS LawsHold\nCHECK_DEADLOCK FALSE\n", maxFiles, map[bool]string{true: "FALSE", false: "TRUE"}[c.Quick()]), Dump: dump, Timeout: 30 * time.Minute, Name: "layers"})
 	if err != nil {
 		c.Inconclusive("MC_EnvLayers failed: " + err.Error())
 		return
@@ -103,11 +103,25 @@ func C16(c *core.Ctx) {
 				if f.K.Set {
 					body += "K=" + f.K.V + "\n"
 				}
+				if f.R {
+					body += "R=${K}\n"
+				}
 				_ = os.WriteFile(filepath.Join(dir, name), []byte(body), 0o644)
 			}
 		}
 		if lentry == "value" {
 			sb.WriteString("    labels:\n      K: e\n")
+		}
+		// service b: a file of its own, then the last file of a
+		sb.WriteString("  b:\n    image: img\n    env_file:\n      - path: ./fb.env\n")
+		_ = os.WriteFile(filepath.Join(dir, "fb.env"), []byte("K=fb\n"), 0o644)
+		if len(files) > 0 {
+			fmt.Fprintf(&sb, "      - path: ./f%d.env\n        required: %v\n", len(files), files[len(files)-1].State != "missing-optional")
+		}
+		sb.WriteString("    label_file:\n      - ./lb.label\n")
+		_ = os.WriteFile(filepath.Join(dir, "lb.label"), []byte("K=lb\n"), 0o644)
+		if len(lfiles) > 0 {
+			fmt.Fprintf(&sb, "      - ./l%d.label\n", len(lfiles))
 		}
 		doc := sb.String()
 		env := types.Mapping{}
@@ -173,6 +187,23 @@ func C16(c *core.Ctx) {
 		gl, hl := s.Labels["K"]
 		if hl != lw.Set || gl != lw.V {
 			fail("layering:label", fmt.Sprintf("label K = %q (present %v); the layering rules define %q (present %v)", gl, hl, lw.V, lw.Set))
+		}
+		glr, hlr := s.Labels["R"]
+		if lrw := optOf(cs["labelr"]); hlr != lrw.Set || glr != lrw.V {
+			fail("layering:label-reference", fmt.Sprintf("label R (written R=${K} in a label file) = %q (present %v); the layering rules define %q (present %v)", glr, hlr, lrw.V, lrw.Set))
+		}
+		// the second service is layered from its own list
+		sbv := p.Services["b"]
+		gkb, hkb := sbv.Environment["K"]
+		check("environment K of the second service", gkb, hkb, asMap(cs["kb"]))
+		grb, hrb := sbv.Environment["R"]
+		check("environment R of the second service", grb, hrb, asMap(cs["rb"]))
+		for _, x := range [][2]string{{"K", "labelb"}, {"R", "labelrb"}} {
+			w := optOf(cs[x[1]])
+			g, h := sbv.Labels[x[0]]
+			if h != w.Set || g != w.V {
+				fail("layering:label of the second service", fmt.Sprintf("label %s of the second service = %q (present %v); the layering rules define %q (present %v)", x[0], g, h, w.V, w.Set))
+			}
 		}
 		if discard {
 			if len(s.EnvFiles) != 0 {
